@@ -428,7 +428,7 @@ def histories_for(ctx):
     ncorpus = len(hs)
     ex = exhaustive(3 if quick else 4)
     fam = boundary_family(6 if quick else 12)
-    nr = 15000 if quick else 120000
+    nr = 30000 if quick else 120000
     rnd = [gen_history(rng, rng.choice([5, 10, 20, 40])) for _ in range(nr)]
     rnd += [gen_history(rng, rng.choice([10, 30, 60]), big=True) for _ in range(nr // 6)]
     rnd += [gen_server(rng, rng.choice([10, 40])) for _ in range(nr // 10)]
